@@ -38,6 +38,7 @@ INVARIANT PrivMatchesPub
 INVARIANT RecipientsEntitled
 INVARIANT NoDecapFailure
 INVARIANT PendingOnCurrentEpoch
+INVARIANT PendingAppliedOnItsBase
 INVARIANT ProvidersAgree
 INVARIANT RetentionExact
 INVARIANT NoGenerationReuse
